@@ -25,6 +25,7 @@ import RelicVerif.Lemmas.EdFormulas
 import RelicVerif.Lemmas.EdGroup
 import RelicVerif.Lemmas.EdMul
 import RelicVerif.Lemmas.EdConv
+import Mathlib.Algebra.Field.ZMod
 
 namespace Relic.Props.C17
 open Relic.Model.Formula Relic.Gen
@@ -42,6 +43,13 @@ theorem Complete.dens {cv : EdC F} (hc : Complete cv) {x1 y1 x2 y2 : F} (h1 : On
     1 + cv.d * x1 * x2 * y1 * y2 ≠ 0 ∧ 1 - cv.d * x1 * x2 * y1 * y2 ≠ 0 := by
   obtain ⟨s, hs⟩ := hc.a_sq
   exact complete cv.a cv.d s hc.two_ne hs hc.d_nsq x1 y1 x2 y2 h1 h2
+
+/-- the hypotheses are satisfiable: over Z/13Z, a = 12 = 5², d = 2 is not a square, and (3, 2) is a point of that curve
+    (the library's instance — a = −1, d = −121665/121666 modulo 2²⁵⁵ − 19 — is evaluated by the driver on every run) -/
+instance fact13 : Fact (Nat.Prime 13) := ⟨by decide⟩
+
+example : Complete (⟨12, 2⟩ : EdC (ZMod 13)) ∧ OnCurve (⟨12, 2⟩ : EdC (ZMod 13)) 3 2 :=
+  ⟨⟨by decide, ⟨5, by decide⟩, by decide⟩, by unfold OnCurve; decide⟩
 
 theorem onCurve_neg {cv : EdC F} {x y : F} (h : OnCurve cv x y) : OnCurve cv (-x) y :=
   neg_onCurve cv.a cv.d x y h
